@@ -15,7 +15,8 @@
    properties C02 / C03; also checked end to end). *)
 From Coq Require Import String.
 From Calamine Require Import Prelude Range Range_spec Col26 Col26_proofs FtabRef FtabMatch Ptg Ptg_proofs
-  FormulaPos_proofs FormulaEnv FormulaEnv_proofs Ptg_total FormulaEnv_total FormulaSheet FormulaSheet_proofs.
+  FormulaPos_proofs FormulaEnv FormulaEnv_proofs Ptg_total FormulaEnv_total FormulaSheet FormulaSheet_proofs
+  FormulaSheetB_proofs.
 From CalamineGen Require Tables.
 Open Scope N_scope.
 
@@ -119,7 +120,7 @@ Proof. exact user_function_correct_xls. Qed.
    CONVERT with 2 / 1 / 3 parameters, formulas with PtgAttrSpace in front of the first operand *)
 Example C14_repaired_witnesses_nonvacuous :
   let xenv := {| xe_sheets := []; xe_names := [lit "_xlfn.CONCAT"]; xe_xtis := []; xe_base := None |} in
-  let benv := {| be_sheets := []; be_names := [lit "_xlfn.CONCAT"] |} in
+  let benv := {| be_sheets := []; be_names := [lit "_xlfn.CONCAT"]; be_base := None |} in
   let sf := fun _ : N => @nil N in
   xlsb_parse_formula sf benv [0x23; 1; 0; 0; 0; 0x17; 1; 0; 65; 0; 0x19; 0x40; 0; 1; 0x17; 1; 0; 98; 0; 0x42; 3; 255; 0]
     = Ok (lit "_xlfn.CONCAT(""A"",""b"")") /\
@@ -147,7 +148,7 @@ Proof. exact repaired_witnesses. Qed.
    of the proved grammar) *)
 Example C14_former_known_witnesses_nonvacuous :
   let env := {| xe_sheets := []; xe_names := []; xe_xtis := []; xe_base := None |} in
-  let benv := {| be_sheets := []; be_names := [] |} in
+  let benv := {| be_sheets := []; be_names := []; be_base := None |} in
   xls_parse_formula (fun _ => []) env (frame_xls (encode_xls (EStr true [97; 98]))) = Ok (lit """ab""") /\
   xls_parse_formula (fun _ => []) env (frame_xls (encode_xls (EStr false [97; 34; 98]))) = Ok (lit """a""""b""") /\
   xlsb_parse_formula (fun _ => []) benv (encode_xlsb (EStr false [97; 34; 98])) = Ok (lit """a""""b""") /\
@@ -252,7 +253,7 @@ Proof. exact name_index_stable_xls. Qed.
 Theorem C14_ptgname_is_ith_record_xlsb : forall show_f64 ext ds r i d k,
   spec_names_xlsb show_f64 ext [] ds = Ok r -> nth_error ds i = Some d ->
   N.of_nat i + 1 < 4294967296 ->
-  xlsb_parse_formula show_f64 {| be_sheets := ext; be_names := map fst r |}
+  xlsb_parse_formula show_f64 {| be_sheets := ext; be_names := map fst r; be_base := None |}
     (encode_xlsb (EName k (N.of_nat i + 1))) = Ok (nr_name d).
 Proof. exact ptgname_is_ith_record_xlsb. Qed.
 
@@ -267,7 +268,7 @@ Proof. exact ptgname_is_ith_record_xls. Qed.
 (* 3-D references go through the XTI table: entry i names the sheet its firstSheet field points to *)
 Theorem C14_sheet3d_through_xti_xlsb : forall sheets xtis i x nm,
   nth_error xtis i = Some x ->
-  spec_sheet_xlsb {| be_sheets := spec_extern_xlsb sheets xtis; be_names := nm |} (N.of_nat i)
+  spec_sheet_xlsb {| be_sheets := spec_extern_xlsb sheets xtis; be_names := nm; be_base := None |} (N.of_nat i)
   = resolve_xti sheets (snd (fst x)).
 Proof. exact sheet3d_through_xti_xlsb. Qed.
 
@@ -336,14 +337,90 @@ Example C14_shared_formula_nonvacuous :
         ((5, 0), lit "SUM(A1:B2)"); ((5, 1), lit "SUM(A1:B2)"); ((6, 0), lit "SUM(A1:B2)"); ((6, 1), lit "SUM(A1:B2)")].
 Proof. exact shared_formula_nonvacuous. Qed.
 
-(* what is left of K_PTGEXP — xlsb: the decoder still answers "" for PtgExp, and the xlsb reader does not
-   look at BrtShrFmla / BrtArrFmla (class K_PTGEXP is restricted to xlsb) *)
-Theorem C14_refuted_ptgexp_xlsb : forall show_f64 benv r, r < 65536 ->
-  xlsb_parse_formula show_f64 benv (0x01 :: le 4 r) = Ok [].
-Proof.
-  intros show_f64 benv r Hr.
-  exact (proj2 (refuted_ptgexp show_f64 {| xe_sheets := []; xe_names := []; xe_xtis := []; xe_base := None |} benv Hr Hr)).
-Qed.
+(* ---------------------------------------------------------------- shared and array formulas (xlsb) *)
+(* former known class K_PTGEXP, xlsb half (repaired by "fix: xlsb cells of shared and array formulas were
+   reported without their formula"): a cell of a shared / array formula carries only PtgExp (row of the
+   group's first cell in the token, its column in rgcb); the formula is in the BrtShrFmla / BrtArrFmla
+   record that follows the first cell's BrtFmla* record.  XlsbCellsReader::next_formula looks one record
+   ahead after a PtgExp cell and decodes the group's formula with the cell's own position as base:
+   C14_rpn_correct_xlsb covers ERefN / EAreaN — relative components are offsets from [be_base], added
+   modulo 1048576 rows / 16384 columns (Ptg.translate_b). *)
+Theorem C14_translate_offsets_are_signed_xlsb : forall (base d : Z), (0 <= base)%Z ->
+  ((base + d mod 4294967296) mod 1048576 = (base + d) mod 1048576)%Z /\
+  ((base + d mod 16384) mod 16384 = (base + d) mod 16384)%Z.
+Proof. intros base d H. split; [apply translate_b_signed_row|apply translate_b_signed_col]; exact H. Qed.
+
+(* the formula cells of a whole sheet, from the records that follow BrtBeginSheetData: stream order, one
+   cell per BrtFmla* record at (row of the last BrtRowHdr, column of the record); plain cells with the
+   text of their own tokens, the cells of a shared group with the group's expression translated to their
+   own position, the cells of an array group with the array's expression, a PtgExp cell naming a cell that
+   has started no group with no text.  For every legal layout: any interleaving of rows, the four formula
+   cell records with any cached value, groups with any rfx (bounding boxes larger than the used cells
+   included), ignored records, and whatever follows BrtEndSheetData. *)
+Theorem C14_sheet_formulas_xlsb : forall show_f64 sheets names l endd rest,
+  wf_layout_b sheets names l ->
+  xlsb_sheet_formulas show_f64 sheets names (flat_map enc_bitem l ++ (0x0092, endd) :: rest)
+  = Ok (spec_formulas_b show_f64 sheets names [] l).
+Proof. exact sheet_formulas_xlsb. Qed.
+
+(* worksheet_formula = Range::from_sparse over those cells, the ones without text dropped
+   (C14_stored_text_positions says what that range holds) *)
+Theorem C14_sheet_formula_range_xlsb : forall show_f64 sheets names l endd rest,
+  wf_layout_b sheets names l ->
+  xlsb_sheet_formula_range show_f64 sheets names (flat_map enc_bitem l ++ (0x0092, endd) :: rest)
+  = formula_range false (spec_formulas_b show_f64 sheets names [] l).
+Proof. exact sheet_formula_range_xlsb. Qed.
+
+Theorem C14_shared_formula_members_xlsb : forall show_f64 sheets names l1 l2 l3 p h first fh rng e tl endd rest r,
+  wf_layout_b sheets names (l1 ++ BShared first fh rng e tl :: l2 ++ BMember p h first :: l3) ->
+  ~ In first (flat_map first_of_b l2) ->
+  xlsb_sheet_formulas show_f64 sheets names
+    (flat_map enc_bitem (l1 ++ BShared first fh rng e tl :: l2 ++ BMember p h first :: l3) ++ (0x0092, endd) :: rest) = Ok r ->
+  In (p, render_xlsb show_f64 (benv_at sheets names (Some p)) e) r /\
+  In (first, render_xlsb show_f64 (benv_at sheets names (Some first)) e) r.
+Proof. exact shared_formula_members_xlsb. Qed.
+
+Theorem C14_array_formula_members_xlsb : forall show_f64 sheets names l1 l2 l3 p h first fh rng flags e tl endd rest r,
+  wf_layout_b sheets names (l1 ++ BArray first fh rng flags e tl :: l2 ++ BMember p h first :: l3) ->
+  ~ In first (flat_map first_of_b l2) ->
+  xlsb_sheet_formulas show_f64 sheets names
+    (flat_map enc_bitem (l1 ++ BArray first fh rng flags e tl :: l2 ++ BMember p h first :: l3) ++ (0x0092, endd) :: rest) = Ok r ->
+  In (p, render_xlsb show_f64 (benv_at sheets names None) e) r /\
+  In (first, render_xlsb show_f64 (benv_at sheets names None) e) r.
+Proof. exact array_formula_members_xlsb. Qed.
+
+(* end to end, model of next_formula loop + from_sparse: the range worksheet_formula returns holds, at the
+   position of a member cell, the master formula translated to that position *)
+Theorem C14_worksheet_formula_members_xlsb : forall show_f64 sheets names l1 l2 l3 p h first fh rng e tl endd rest,
+  let l := l1 ++ BShared first fh rng e tl :: l2 ++ BMember p h first :: l3 in
+  wf_layout_b sheets names l ->
+  ~ In first (flat_map first_of_b l2) ->
+  pre empty (OFromSparse (filter nonempty_cell (spec_formulas_b show_f64 sheets names [] l))) ->
+  NoDup (map fst (spec_formulas_b show_f64 sheets names [] l)) ->
+  render_xlsb show_f64 (benv_at sheets names (Some p)) e <> [] ->
+  exists r, xlsb_sheet_formula_range show_f64 sheets names (flat_map enc_bitem l ++ (0x0092, endd) :: rest) = Ok r /\
+            get_value r p = Some (render_xlsb show_f64 (benv_at sheets names (Some p)) e).
+Proof. exact worksheet_formula_members_xlsb. Qed.
+
+(* D1:E1 share a formula whose row offset -1 wraps to row 1048576; B2:B4 share =A2*2+$C$1 (column offset
+   -1 stored as 0x3FFF; the record's rfx is a larger box; the first cell is a BrtFmlaString, another member
+   a BrtFmlaBool); a plain cell, an orphan PtgExp cell and a cell without tokens in between; an array
+   formula over A6:B7; the far corner XFC1048576:XFD1048576 where +1 / +1 wraps to XFD1 / A1; and the range
+   worksheet_formula builds from the first sheet *)
+Example C14_shared_formula_xlsb_nonvacuous :
+  wf_layout_b [] [] ex_shared_layout_b /\
+  xlsb_sheet_formulas (fun _ => []) [] [] (flat_map enc_bitem ex_shared_layout_b ++ [(0x0092, []); (0x0082, [])])
+  = Ok [((0, 3), lit "SUM(D1048576:E$2)"); ((0, 4), lit "SUM(E1048576:F$2)");
+        ((1, 1), lit "A2*2+$C$1"); ((2, 1), lit "A3*2+$C$1"); ((2, 2), lit "7"); ((3, 1), lit "A4*2+$C$1");
+        ((3, 2), []); ((3, 3), []);
+        ((5, 0), lit "SUM(A1:B2)"); ((5, 1), lit "SUM(A1:B2)"); ((6, 0), lit "SUM(A1:B2)"); ((6, 1), lit "SUM(A1:B2)")] /\
+  wf_layout_b [] [] ex_corner_layout_b /\
+  xlsb_sheet_formulas (fun _ => []) [] [] (flat_map enc_bitem ex_corner_layout_b ++ [(0x0092, [])])
+  = Ok [((1048575, 16382), lit "XFD1"); ((1048575, 16383), lit "A1")] /\
+  (exists r, xlsb_sheet_formula_range (fun _ => []) [] []
+               (flat_map enc_bitem ex_shared_layout_b ++ [(0x0092, []); (0x0082, [])]) = Ok r /\
+             get_value r (3, 1) = Some (lit "A4*2+$C$1") /\ get_value r (3, 2) = Some []).
+Proof. exact shared_formula_nonvacuous_xlsb. Qed.
 
 (* stored-text readers: non-empty texts at their positions, "" elsewhere in their tight box *)
 Theorem C14_stored_text_positions : forall (cells : list (pos * list N)),
@@ -440,6 +517,24 @@ Check C14_xlsb_read_names_spec : forall show_f64 sheets xtis ds e p,
     ((0x016A, enc_externsheet xtis) :: map (fun d => (0x0027, enc_brtname d)) ds ++ [(e, p)])
   = do r <- spec_names_xlsb show_f64 (spec_extern_xlsb sheets xtis) [] ds;
     Ok (spec_extern_xlsb sheets xtis, r).
+Check C14_sheet_formulas_xlsb : forall show_f64 sheets names l endd rest,
+  wf_layout_b sheets names l ->
+  xlsb_sheet_formulas show_f64 sheets names (flat_map enc_bitem l ++ (0x0092, endd) :: rest)
+  = Ok (spec_formulas_b show_f64 sheets names [] l).
+Check C14_shared_formula_members_xlsb : forall show_f64 sheets names l1 l2 l3 p h first fh rng e tl endd rest r,
+  wf_layout_b sheets names (l1 ++ BShared first fh rng e tl :: l2 ++ BMember p h first :: l3) ->
+  ~ In first (flat_map first_of_b l2) ->
+  xlsb_sheet_formulas show_f64 sheets names
+    (flat_map enc_bitem (l1 ++ BShared first fh rng e tl :: l2 ++ BMember p h first :: l3) ++ (0x0092, endd) :: rest) = Ok r ->
+  In (p, render_xlsb show_f64 (benv_at sheets names (Some p)) e) r /\
+  In (first, render_xlsb show_f64 (benv_at sheets names (Some first)) e) r.
+Check C14_array_formula_members_xlsb : forall show_f64 sheets names l1 l2 l3 p h first fh rng flags e tl endd rest r,
+  wf_layout_b sheets names (l1 ++ BArray first fh rng flags e tl :: l2 ++ BMember p h first :: l3) ->
+  ~ In first (flat_map first_of_b l2) ->
+  xlsb_sheet_formulas show_f64 sheets names
+    (flat_map enc_bitem (l1 ++ BArray first fh rng flags e tl :: l2 ++ BMember p h first :: l3) ++ (0x0092, endd) :: rest) = Ok r ->
+  In (p, render_xlsb show_f64 (benv_at sheets names None) e) r /\
+  In (first, render_xlsb show_f64 (benv_at sheets names None) e) r.
 
 Print Assumptions C14_letters_injective.
 Print Assumptions C14_letters_inverse.
@@ -475,10 +570,15 @@ Print Assumptions C14_ptgname_is_ith_record_xls.
 Print Assumptions C14_sheet3d_through_xti_xlsb.
 Print Assumptions C14_sheet3d_through_xti_xls.
 Print Assumptions C14_defined_name_text_is_render_xls.
-Print Assumptions C14_refuted_ptgexp_xlsb.
 Print Assumptions C14_builtin_names_table.
 Print Assumptions C14_translate_offsets_are_signed.
 Print Assumptions C14_sheet_formulas_xls.
 Print Assumptions C14_shared_formula_members_xls.
 Print Assumptions C14_array_formula_members_xls.
+Print Assumptions C14_translate_offsets_are_signed_xlsb.
+Print Assumptions C14_sheet_formulas_xlsb.
+Print Assumptions C14_sheet_formula_range_xlsb.
+Print Assumptions C14_shared_formula_members_xlsb.
+Print Assumptions C14_array_formula_members_xlsb.
+Print Assumptions C14_worksheet_formula_members_xlsb.
 Print Assumptions C14_stored_text_positions.
